@@ -63,8 +63,19 @@ def make_target(table):
             for k, v in spec["attrs"].items():
                 setattr(x, k, tuple(v) if spec.get("tuple_attr") == k else v)
             if spec.get("unser"):
-                x.lock = threading.Lock()
-                x.fn = lambda: 1
+                # content that no serializer can write: objects of the interpreter, or text that is not valid unicode (a lone
+                # surrogate, as file names and broken input give them) in an attribute or in the message itself
+                self.unser_n = n = getattr(self, "unser_n", 0) + 1
+                if n % 3 == 0:
+                    x.lock = threading.Lock()
+                    x.fn = lambda: 1
+                elif n % 3 == 1:
+                    x.note = "not unicode: \udc80"
+                    x.lock = threading.Lock()
+                else:
+                    x.lock = threading.Lock()
+                    if x.args and isinstance(x.args[0], str):
+                        x.args = (x.args[0] + " \udc80\ud800",) + tuple(x.args[1:])
             return x
 
         @P.expose
